@@ -573,3 +573,10 @@ def per_address_store(ctx):
                 ok = set(x for x in lv if x[0] in ('call', 'attr')) <= {('call', 'self._provider_execute')}
                 ctx.require(ok or bool(hit), SVC + ':' + q, 'the balance cached by getbalance derives from %s, expected only the provider answer of this request' % sorted(str(x) for x in lv if x[0] in ('call', 'attr')), c)
     ctx.floor(n, 2, 'store_address calls with a balance')
+
+
+@PROP.obligation('C20.explicit-falsy')
+def explicit_falsy(ctx):
+    """A parameter of the service layer that gets its default through a truthiness test is never passed an explicit falsy constant by a caller inside the package (min_providers, limits, after_txid)."""
+    from .common_falsy import falsy_defaults as run
+    run(ctx, ['services.services', 'services.baseclient'], 'a limit / provider count of 0 given on purpose is replaced by the default')
